@@ -28,7 +28,7 @@ VARIABLES
   mpc,     \* main loop:  "loop" | "handling" (inside handleMessage) | "blocked" (stuck in disconnect)
            \*             | "wait" (wg.Wait) | "done" (Handle returned)
   rpc,     \* receiver:   "read" | "qfull" (blocked in Dispatch) | "blocked" (stuck in disconnect) | "exit"
-  spc,     \* sender:     "run" | "blocked" | "exit"
+  spc,     \* sender:     "run" | "blocked" | "drain" (a write failed: emptying the queue until the context is cancelled) | "exit"
   sock,    \* "open" | "sclosed" (server closed it: handleDisconnect) | "cclosed" (client went away)
   hd,      \* number of times HandleDisconnect ran
   sent,    \* frames sent by the client so far
@@ -99,15 +99,19 @@ SendSeesCtx ==
   /\ spc = "run" /\ ctx = "cancelled" /\ spc' = "exit"
   /\ UNCHANGED <<ctx, dch, q, mpc, rpc, sock, hd, sent, pend>>
 
-SendFails ==                  \* a write on a socket that is gone -> disconnect -> return
-  /\ spc = "run" /\ sock # "open"
-  /\ IF CanPush THEN spc' = "exit" /\ dch' = (IF Push THEN dch + 1 ELSE dch)
+SendFails ==                  \* a write on a socket that is gone (or whose deadline passed) -> disconnect; the sender
+  /\ spc = "run" /\ sock # "open"   \* then keeps emptying its queue until the handler is done with the session (ConnSend.tla)
+  /\ IF CanPush THEN spc' = "drain" /\ dch' = (IF Push THEN dch + 1 ELSE dch)
                 ELSE spc' = "blocked" /\ dch' = dch
   /\ UNCHANGED <<ctx, q, mpc, rpc, sock, hd, sent, pend>>
 
 SendUnblocks ==
-  /\ spc = "blocked" /\ Push /\ dch' = dch + 1 /\ spc' = "exit"
+  /\ spc = "blocked" /\ Push /\ dch' = dch + 1 /\ spc' = "drain"
   /\ UNCHANGED <<ctx, q, mpc, rpc, sock, hd, sent, pend>>
+
+SendDrainEnds ==
+  /\ spc = "drain" /\ ctx = "cancelled" /\ spc' = "exit"
+  /\ UNCHANGED <<ctx, dch, q, mpc, rpc, sock, hd, sent, pend>>
 
 (***************************************************************************)
 (* Main loop (the select of handler.Handle)                                *)
@@ -153,7 +157,7 @@ MainReturns ==                \* wg.Wait() returns: Handle returns (deferred dra
 Done == mpc = "done" /\ UNCHANGED cvars
 
 Server == RecvUnblocksQueue \/ RecvSeesClosed \/ RecvSeesCtx \/ RecvUnblocks
-          \/ SendSeesCtx \/ SendFails \/ SendUnblocks
+          \/ SendSeesCtx \/ SendFails \/ SendUnblocks \/ SendDrainEnds
           \/ MainPops \/ (\E res \in {"ok", "bad"} : MainFinishes(res)) \/ MainDisconnects \/ MainLeavesLoop \/ MainDrains \/ MainReturns
 CNext == Server \/ (\E cls \in {"f", "junk"} : ClientSends(cls)) \/ ClientCloses \/ Done
 CNextIdle == CNext \/ MainIdle
